@@ -32,8 +32,8 @@ CHECKS = {
    "Seeded search over operation sequences (local/remote adds of valid/underpriced/replacing/gapped/unaffordable/duplicate transactions, head changes incl. reorg-shaped resets that re-inject dropped transactions, clock jumps, SetGasPrice) and runReorg/foreground interleavings. Views must agree with each other, pending must be gap-free/affordable from the head state's nonce, queued above, limits as documented in the TxPoolConfig comments (locals exempt). Sampling, not proof.",
    "Not decided: the data-race clause (no -race part was built), the journal (needs the file system; disabled), sequences continuing after a global-queue truncation (its outcome depends on Go map order; runs end there). Three low-severity limit findings are recorded as known."),
  "C05": ("exploration", "NET+CHAIN",
-   "deterministic simulation: (1) history oracle — every signature honest engines emit in the NET simulation (seeded schedules, message faults, crash/restart) is recorded, every evidence assemblable from one validator's own signatures is replayed into the real slashing code (builder and validator path) on scratch head states; (2) Byzantine fault — a validator really equivocates on a chain grown by the real block-building path, with evidence duplication/replay/late/forged variants",
-   "Part 1 decides 'an honest validator is never slashable' over recorded histories of real engines; part 2 decides acceptance by builder and validator alike, exactly-once and the bounded penalty for real equivocation. Sampling, not proof. One genuine, unrepairable-without-protocol-change defect is recorded as known findings (classes honest-validator-slashable:different-hashes:<kinds>): the signed vote payload carries no vote kind.",
+   "deterministic simulation in three parts: (1) history oracle — every signature honest engines emit in the NET simulation (seeded schedules, message faults, crash/restart) is recorded, every evidence assemblable from one validator's own signatures is replayed into the real slashing code (builder and validator path) on scratch head states; (2) Byzantine fault — a validator really equivocates on a chain grown by the real block-building path, with evidence duplication/replay/late/forged variants; (3) staking histories — evidences against validators with delegations of every size and unfinished withdraw records of validators and delegators (generator of C07/chain), per-validator loss judged block by block against the block's slashing record and the fraction bound",
+   "Part 1 decides 'an honest validator is never slashable' over recorded histories of real engines; part 2 decides acceptance by builder and validator alike and exactly-once for real equivocation; part 3 decides 'never more than the configured fraction of its stake and pending withdrawals' on states only real histories produce. Sampling, not proof. One genuine, unrepairable-without-protocol-change defect is recorded as known findings (classes honest-validator-slashable:different-hashes:<kinds>): the signed vote payload carries no vote kind.",
    "Trusts: the forge for growing chains (genuine credentials/quorums); NET stand-ins as in C02. Every other evidence accepted against an honest validator (e.g. two prevotes, which would also be a C02 violation) is still reported."),
  "C08": ("exploration", "STATE+CHAIN",
    "seeded operation plans over the real StateDB with abort (revert), restart, cap-flush and copy-switch faults and a recomputation oracle after every operation and after reload (STATE part); the same clauses evaluated after every block of seeded chain histories produced by the real staking handlers, on the builder and on a node reopened from disk (CHAIN part)",
@@ -67,10 +67,10 @@ CHECKS = {
    "deterministic multi-party simulation: seeded proposer sequences (honest parties with heterogeneous locally-known version tables, Byzantine proposers mutating the five version fields) over the real builder/verifier, checked against a small reference state machine of the upgrade protocol",
    "Seeded search over header histories with adversarial field choices restricted to what every honest verifier accepts, for scaled-down parameter tables. The reference model is written from the property text; a violation must hold under both readings of the voting window boundary. Sampling, not proof.",
    "Trusts: nothing of the implementation in the oracle. Honest statement of fit: the two functions are pure; the adversity is Byzantine choice and node heterogeneity, no clock/disk/scheduler exists to simulate (DESIGN.md C12). MinUpgradeWaitRounds=0 (outside production ranges) is excluded; see DESIGN.md."),
- "C14": ("exploration", "NET seams",
-   "seam monitors on the deterministic NET simulation: decode/re-encode identity of every frame and typed disk record honest nodes emit; structure-aware and byte-level corruption of real frames injected as a network fault (must be rejected or canonical, never panic, bounded allocation)",
-   "Narrow by design: values are those the simulated system produces plus seeded mutations of them. Decides emit-side canonicity/round-trip for consensus messages, proposed blocks, votes, headers, bodies, receipts and vote records, and accept-side canonicity and crash-safety of the consensus message path on hostile bytes.",
-   "Not decided: types and value shapes the simulated system never produces (staking messages, evidences, validator records) — a simulator cannot explore a codec's input space; stated in DESIGN.md C14."),
+ "C14": ("exploration", "NET+CHAIN+SYNC seams",
+   "seam monitors and corruption faults on three deterministic simulations: (net-seams) decode/re-encode identity of every consensus frame and typed record honest NET nodes emit, corrupted frames into the real consensus message path; (chain-seams) every record and chain object that real staking histories write to the simulated disk (headers, bodies, receipts, tx lookups, transactions with staking payloads, slash data and evidences, consensus data and vote containers, account/validator/statistics/index/withdraw-queue/staking-record leaves, delegation blobs) decoded and re-encoded with the real codecs, and their corrupted versions offered to the real typed decoders, to the staking handlers (scratch state and real blocks) and to slash-data replay; (sync-seams) a real ProtocolManager (fetcher, downloader, handlers) over a real chain served to simulated hostile peers over p2p.MsgPipe (hook H8): every message code valid, corrupted and semantically hostile, with an honest probe peer",
+   "Corruptions: bit flips, truncation, extension, size-field attacks (incl. chains of decreasing huge sizes), non-canonical encodings and canonical encodings of the wrong shape. Oracles: emitted bytes are canonical and round-trip; an accepted byte string re-encodes to exactly those bytes; no panic (a panic on a goroutine of the node is a process-crash class), bounded allocation, the node stays responsive to an honest peer and its head does not move on rejected input. Values are those the simulated systems produce plus seeded mutations of them: a simulator cannot explore a codec's input space (DESIGN.md C14).",
+   "Not decided: value shapes no history produces (legacy evidences, inactivity evidences, VoteDB records on the chain disk); fast/light sync paths; more than one downloader-registered peer (the fetcher/downloader pick peers with unseeded randomness or map order). Panics of state readers on a locally corrupted database are counted as diagnostics, not violations (outside the statement)."),
  "C02": ("exploration", "NET+VOTEDB",
    "deterministic simulation: real consensus engines on simulated disks/network/clock in one synctest bubble with seeded schedules, message faults, partitions and crash/restart (also at the k-th disk write); history oracle over every signed vote; plus exhaustive-ish seeded API histories of the vote database with restarts against a reference model of grants",
    "Seeded search over schedules and fault sequences of 4-5 real ucon engines (NET) and over context/vote/restart histories of the real VoteDB (VOTEDB). Every vote that leaves an honest node enters a per-validator history that survives restarts; conflicting votes or excess next-index votes in one (round, index) are violations, minimised and replayed in a fresh process. Sampling, not proof.",
